@@ -606,4 +606,13 @@ def backport_owns_points(repo: Repo) -> RuleRun:
 
 backport_owns_points.rule_id = "C12.BACKPORT-OWNS-POINTS"
 
-RULES = [clear_complete, grade_idempotent, lockstep_filter, backport_map, delete_skip, assemble_walk, backport_owns_points]
+def no_class_state(repo: Repo) -> RuleRun:
+    """The model's state (depot, deleted set, lists) belongs to one mesh: no class-level container is changed in place."""
+    from ..alias import class_state_rule
+
+    return class_state_rule(repo, PROP, "C12.NO-CLASS-STATE")
+
+
+no_class_state.rule_id = "C12.NO-CLASS-STATE"
+
+RULES = [clear_complete, grade_idempotent, lockstep_filter, backport_map, delete_skip, assemble_walk, backport_owns_points, no_class_state]
